@@ -56,7 +56,9 @@ def sname(v):
 
 def exit_region(body, S, loop_blocks, start, state):
     """blocks that can execute after the scan leaves the loop at `start` with the scan state `state`: every test of the
-    state on the way is resolved with that value, every other branch is followed both ways"""
+    state on the way is resolved with that value, every other branch is followed both ways.  With several state variables
+    (S a tuple of locals, state a dict local -> value) each test is resolved with the value of the variable it reads."""
+    multi = state if isinstance(state, dict) else None
     seen = set()
     work = [start]
     while work:
@@ -68,7 +70,9 @@ def exit_region(body, S, loop_blocks, start, state):
         nxt = body.succs(b)
         if t["t"] == "switch":
             sl = scanact.switch_local(body, b)
-            if sl is not None and sl[0] == S:
+            if sl is not None and multi is not None and sl[0] in multi:
+                state = multi[sl[0]]
+            if sl is not None and (sl[0] == S or (multi is not None and sl[0] in multi)):
                 local, is_d, variants_, neg = sl
                 keep = []
                 for (lab, tg) in body.edges(b):
@@ -158,6 +162,8 @@ def post_loop_actions(facts, body, state_local, variants, subject_ok, regions=No
             else:
                 kinds.append("?store %s" % nshow(val)[:60])
         r = a["ret"]
+        if r is not None and body.locals[0]["ty"] == "()":
+            r = None   # a unit function returns nothing, whatever expression its last arm ends in (`=> s.make_ascii_lowercase()`)
         if r is not None:
             rt = strip_conv(r[1])
             if is_unicode_lower_of(facts, rt, subject_ok):
@@ -190,21 +196,37 @@ def guardxform_obligations(ctx, facts, key, rule="GUARDXFORM"):
     ctx.ob(rule, "%s: the scan loop reads the chars of the function's text argument" % key, subj == ("arg", 1), fn=key, site=site, detail=nshow(subj))
     subject_ok = lambda t: strip_conv(t) == ("arg", 1)  # noqa: E731
     st, paths, is_elem, exit_none = scanact.loop_transitions(facts, summ, body, loop)
-    if len(st) != 1:
-        raise AnchorError("expected one loop-carried state variable, found %d" % len(st), key)
-    S = next(iter(st))
-    values = {sname(v): v for v in st[S]["values"]}
+    if len(st) < 1 or len(st) > 3:
+        raise AnchorError("expected one loop-carried state variable (or up to three flags), found %d" % len(st), key)
+    SL = sorted(st)
+    multi = len(SL) > 1
+    if multi and not all(v[0] == "bool" for l_ in SL for v in st[l_]["values"]):
+        raise AnchorError("several loop-carried state variables that are not all flags", key)
+    S = SL[0] if not multi else tuple(SL)
+
+    def pname(sd):
+        """name of a (product) state: the single variable's value, or `flag1=..,flag2=..` in the order the flags are declared"""
+        if not multi:
+            return sname(sd[SL[0]])
+        return ",".join("flag%d=%s" % (n_ + 1, sname(sd[l_])) for n_, l_ in enumerate(SL))
     # initial state: the constant assigned in a block dominating the loop header
-    inits = []
-    for (b, i, kind, payload) in body.defs()[S]:
-        if body.dominates(b, loop["header"]) and b not in loop["blocks"]:
-            v = scanact.const_state_value(strip(body._rv_term(payload)))
-            if v is not None:
-                inits.append(v)
-                values[sname(v)] = v
-    if len(inits) != 1:
-        raise AnchorError("initial scan state not unique", key)
-    init = sname(inits[0])
+    init_sd = {}
+    for l_ in SL:
+        inits = []
+        for (b, i, kind, payload) in body.defs()[l_]:
+            if body.dominates(b, loop["header"]) and b not in loop["blocks"]:
+                v = scanact.const_state_value(strip(body._rv_term(payload)))
+                if v is not None:
+                    inits.append(v)
+        if len(inits) != 1:
+            raise AnchorError("initial scan state not unique", key)
+        init_sd[l_] = inits[0]
+    values = {}        # name -> state dict
+    if not multi:
+        for v in st[S]["values"]:
+            values[sname(v)] = {S: v}
+    values[pname(init_sd)] = init_sd
+    init = pname(init_sd)
     # partition check
     U = boolsum.universe()
     sets = [scanact.cond_set(p["conds"], facts) for p in paths]
@@ -227,10 +249,11 @@ def guardxform_obligations(ctx, facts, key, rule="GUARDXFORM"):
             for pi, (p, cs) in enumerate(zip(paths, sets)):
                 if cs == 0:
                     continue
-                asg = p["assign"].get(S)
-                if asg is not None:
-                    values[sname(asg)] = asg
-                s2 = sname(asg) if asg is not None else s_
+                asg = {l_: p["assign"][l_] for l_ in SL if l_ in p["assign"]} or None
+                sd2 = dict(values[s_])
+                sd2.update(asg or {})
+                s2 = pname(sd2)
+                values[s2] = sd2
                 if p["exit"] == "continue":
                     new = seen.get(s_, 0) | cs
                     if s2 not in reached or (seen.get(s2, 0) | new) != seen.get(s2, 0):
@@ -248,9 +271,9 @@ def guardxform_obligations(ctx, facts, key, rule="GUARDXFORM"):
     # group the exits by the code they run afterwards
     exits = []   # (name, region, chars)
     for s_ in sorted(reached):
-        exits.append(("done", s_, exit_region(body, S, loop["blocks"], exit_none, values[s_]), seen.get(s_, 0)))
+        exits.append(("done", s_, exit_region(body, S, loop["blocks"], exit_none, values[s_] if multi else values[s_][S]), seen.get(s_, 0)))
     for (pi, s2), (xb, assigned) in sorted(breaks.items(), key=lambda kv: (kv[0][1], kv[0][0])):
-        exits.append(("break", s2, exit_region(body, S, loop["blocks"], xb, values[s2]), U))   # the unscanned rest is arbitrary
+        exits.append(("break", s2, exit_region(body, S, loop["blocks"], xb, values[s2] if multi else values[s2][S]), U))   # the unscanned rest is arbitrary
     groups = {}
     for kind, s_, region, chars in exits:
         groups.setdefault(s_, []).append((kind, region, chars))
@@ -390,9 +413,14 @@ def fst_pypi_obligations(ctx, facts, key, lowercaser_key, rule="FST-PYPI"):
         # the same as scanning the whole name.  lower(head) must come from a lower-caser verified char by char.
         init = stores[0][1][2]
         lk = init[1]
-        oks = lk in facts.bodies and len(init[2]) == 1 and norm(init[2][0]) == ("field", prefixed, "0") and table.get(("other", (False, True))) == want[("other", (False, True))]
-        if oks:
-            guardxform_obligations(ctx, facts, lk, rule)
+        other_row = table.get(("other", (False, True))) == want[("other", (False, True))]
+        if is_unicode_lower_of(facts, init, lambda t_: norm(t_) == ("field", prefixed, "0")):
+            # lower(head) spelled out: head.chars().flat_map(char::to_lowercase).collect() -- the per-char mapping itself
+            oks = other_row
+        else:
+            oks = lk in facts.bodies and len(init[2]) == 1 and norm(init[2][0]) == ("field", prefixed, "0") and other_row
+            if oks:
+                guardxform_obligations(ctx, facts, lk, rule)
     ctx.ob(rule, "after the loop `*name = result` with result started empty" + (" (or as the lower-cased dash-free head)" if prefixed is not None else ""), oks, fn=key, site=site, detail=str([(b, nshow(t)[:80]) for b, t in stores]))
     # the two branches: slow path iff contains(DASH); fast path = the checked lower-caser
     pre_atoms = [models.canon_atom(a) for _, a in atoms_at(body, loop["header"])]
